@@ -270,6 +270,14 @@ def build(S):
     from . import C10
 
     C10.spacing_selection(S)
+    # derived quantities must be measured from the grid's own points, not from whatever extension of the fine
+    # contour earlier grids left behind: zShift is zero at the contour's start point (chain contract of C06)
+    from vc.shim import numpy_shimmed
+    from . import chainkit
+
+    with numpy_shimmed():
+        S.under_contract("hypnotoad.core.mesh:MeshRegion.calcZShift")
+        S.contract("calcZShift[open chain, guard points and a fine contour extended below the start]", "hypnotoad.core.mesh:MeshRegion.calcZShift", chainkit.run_zshift(False, start1=2, fine_offset=3), shape="two regions, nx=1; contour start index 2, fine-contour start index 5", assume_safety="R>0 and Bp!=0 at the fine-contour nodes (geometry preconditions)")
 
 
 def post(S):
